@@ -191,7 +191,7 @@ def _run_chunk_inner(prop, batch_name, start, end, root, digest_every, state_mas
                     break
                 continue
             if res.hang and not cd.hang_is_violation and not res.violations:
-                agg.errors.append(
+                agg.hangs.append(
                     f"run {prop}/{batch_name}/{i} exceeded its budget ({res.hang}); "
                     "this property has no termination clause, so this is a harness error"
                 )
@@ -577,6 +577,13 @@ def run_check(prop: str, tier: str) -> int:
     resampled = equal = 0
     # (skipped once a violation is confirmed: a defect may pollute process-wide state, which makes digests
     # depend on what a worker ran before - the confirmed replay in a fresh interpreter is the evidence then)
+    if agg.hangs:
+        if exit_code == 1:
+            # a violation of the property was found, minimised and reproduced in a fresh process: runs that in
+            # addition exceeded their budget do not take that away (they are reported, not counted)
+            lines.append(f"  note: {len(agg.hangs)} run(s) exceeded their budget and were not evaluated, e.g. {agg.hangs[0]}")
+        else:
+            agg.errors.extend(sorted(agg.hangs))
     if not agg.errors and exit_code == 0 and os.environ.get("VERIF_NO_RESAMPLE") != "1":
         resampled, equal, mism = _resample(prop, agg, root, 40 if tier == "quick" else 150)
         if mism:
